@@ -630,6 +630,20 @@ fn odd_reference_and_failed_entry(ctx: &mut Ctx) {
     let _ = crate::sandbox::force_remove(&base);
 }
 
+/// An entry removed by an earlier action before the test looks at it: the diagnostic goes to standard
+/// error, standard output lists exactly the entries the test selects.
+fn removed_entry_slice(ctx: &mut Ctx) {
+    let cases: Vec<(Vec<&str>, bool, Vec<&str>)> = vec![(vec!["-newer", "ec/ref"], false, vec!["ec/d", "ec/d/keep"]), (vec!["-newermm", "ec/ref"], true, vec!["ec/d", "ec/d/keep"]), (vec!["-anewer", "ec/ref"], false, vec!["ec/d", "ec/d/keep"]), (vec!["-cnewer", "ec/ref"], false, vec!["ec/d", "ec/d/keep"]), (vec!["-newerca", "ec/ref"], false, vec!["ec/d", "ec/d/keep"]), (vec!["-mtime", "-99999"], false, vec!["ec/d", "ec/d/keep"]), (vec!["-amin", "-99999999"], false, vec!["ec/d", "ec/d/keep"])];
+    for (test, victim_is_dir, expect) in cases {
+        ctx.rep.evaluations += 1;
+        ctx.rep.nontrivial += 1;
+        ctx.rep.count("removed_entry_cases", 1);
+        if let Err(d) = crate::props::labelled::removed_entry_case(&ctx.sbx.clone(), &test, victim_is_dir, &expect) {
+            ctx.rep.violation(&format!("C15 {} on an entry that was removed just before: standard output is not exactly the selected entries (a diagnostic belongs on standard error)", test[0]), d, json!({"prop":"C15","removed_entry":true}));
+        }
+    }
+}
+
 fn run(ctx: &mut Ctx) {
     pre_epoch_ages(ctx);
     part_a(ctx);
@@ -643,9 +657,17 @@ fn run(ctx: &mut Ctx) {
     if ctx.shard == 2 % ctx.nshards {
         odd_reference_and_failed_entry(ctx);
     }
+    if ctx.shard == 8 % ctx.nshards {
+        removed_entry_slice(ctx);
+    }
+
 }
 
 fn replay(case: &Value, ctx: &mut Ctx) -> Option<String> {
+    if case["removed_entry"] == true {
+        removed_entry_slice(ctx);
+        return ctx.rep.violations.keys().next().cloned();
+    }
     let sbx = ctx.sbx.clone();
     let before = ctx.rep.violations.len();
     if case["part"] == "DST" {
